@@ -18,11 +18,11 @@ import (
 	"strings"
 	"sync"
 
-	"github.com/go-critic/go-critic/checkers"
 	"github.com/go-critic/go-critic/linter"
 	"golang.org/x/tools/go/packages"
 
 	"verifharness/internal/common"
+	"verifharness/internal/load"
 )
 
 // Root is the verification tree this binary belongs to (<root>/work/bin/vh).
@@ -47,9 +47,7 @@ var TestParams = map[string]map[string]interface{}{
 // Infos returns all registered checkers (embedded rule groups included), with the suite's parameters.
 func Infos() []*linter.CheckerInfo {
 	initOnce.Do(func() {
-		if err := checkers.InitEmbeddedRules(); err != nil {
-			panic(err)
-		}
+		load.InitRules()
 		for _, info := range linter.GetCheckersInfo() {
 			for key, v := range TestParams[info.Name] {
 				if p, ok := info.Params[key]; ok {
